@@ -592,6 +592,14 @@ func init() {
 		if !base.isConc() {
 			base = e.concretize(base)
 		}
+		if e.sh.cfg.Params["concretize-floats"] == 1 && bits.isConc() && !hasOpaque(strBytes(args[0])) {
+			// compiler jobs: literals are parsed value by value
+			v, err := strconv.ParseInt(e.concretizeStr(args[0]), int(base.signed()), int(bits.signed()))
+			if err != nil {
+				return tuple{mkI64(v), e.newError("strconv.ParseInt: "+err.Error(), nil)}
+			}
+			return tuple{mkI64(v), iface{}}
+		}
 		v, ok := e.parseIntSym(strBytes(args[0]), base.signed(), bits.signed())
 		if !ok {
 			return tuple{mkI64(0), e.newError("strconv.ParseInt: invalid syntax", nil)}
@@ -621,6 +629,16 @@ func init() {
 			return tuple{Float{C: v}, iface{}}
 		}
 		bs := strBytes(args[0])
+		if !hasOpaque(bs) && e.sh.cfg.Params["concretize-floats"] == 1 {
+			// compiler jobs: a literal with a symbolic byte is parsed value
+			// by value (the lexer has pinned the byte to a few characters)
+			s := e.concretizeStr(args[0])
+			v, err := strconv.ParseFloat(s, int(args[1].(Int).signed()))
+			if err != nil {
+				return tuple{Float{C: v}, e.newError("strconv.ParseFloat: "+err.Error(), nil)}
+			}
+			return tuple{Float{C: v}, iface{}}
+		}
 		if hasOpaque(bs) {
 			// ParseFloat(FormatFloat(x,'g',-1,64)) == x for non-NaN x
 			if len(bs) == 1 && bs[0].X != nil && (bs[0].X.Kind == "g" || bs[0].X.Kind == "G") {
